@@ -70,6 +70,10 @@ def _numeq(i):
 
 NAMINGS = {
     'numeq': _numeq,
+    # GRAPH nodes only (never Kripke states: labels(None) means the whole structure): None is a node like
+    # any other; a node may be a tuple / frozenset of other nodes (product and subset constructions)
+    'nonefirst': lambda i: None if i == 0 else ('n%d' % i if i % 2 else i),
+    'nested': lambda i: [0, 1, (0, 1), 2, frozenset([0, 1]), (0, 1, 2), (1, 0), 3, (2, 3), frozenset([2]), 4, (4,)][i] if i < 12 else ('m', i),
     # frozensets that are pairwise INCOMPARABLE: hashable, '<' never raises but is only a partial order
     # (subset), so sorting them silently yields no order at all
     'fsets': lambda i: frozenset([i, 'k%d' % (i % 3)]),
